@@ -14,8 +14,31 @@ A case is the grammar description (`terms …`, `nonterms …`, `start S`, `prod
 namespace AlgoVerif.C08.Driver
 open AlgoVerif AlgoVerif.Gram AlgoVerif.C08
 
+/-! Terminals named like non-terminals.  The shared protocol tells body words apart by name; in C08/C09 case
+files a word that starts with `'` is the terminal named by the rest of the word.  `unquote` gives the Model the
+bare names (its symbols carry their kind); `requote` writes the quote, in the printed result, exactly on the
+terminals whose name is a declared non-terminal of that grammar (the harness prints the same). -/
+
+def bare (t : String) : String :=
+  match t.toList with
+  | '\'' :: r => String.ofList r
+  | _ => t
+
+def unquote (g : G) : G :=
+  { g with terms := g.terms.map bare,
+           prods := g.prods.map fun p => { p with body := p.body.map fun s => match s with
+             | .term t => .term (bare t)
+             | .nonterm n => .nonterm n } }
+
+def requote (g : G) : G :=
+  let q := fun (t : String) => if g.nonterms.contains t then "'" ++ t else t
+  { g with terms := g.terms.map q,
+           prods := g.prods.map fun p => { p with body := p.body.map fun s => match s with
+             | .term t => .term (q t)
+             | .nonterm n => .nonterm n } }
+
 def showOutcome : Outcome G → String
-  | .ok g => "ok " ++ showGrammar g
+  | .ok g => "ok " ++ showGrammar (requote g)
   | .panic => "panic"
   | .diverge => "hang"
 
@@ -46,7 +69,7 @@ def runWith (extra : G → List String → Option String) (ops : List String) : 
       g := g'
       out := out.push "ok"
     else
-      let gn := normalize g
+      let gn := normalize (unquote g)
       let ws := words line
       match commonOp gn ws with
       | some s => out := out.push s
